@@ -41,8 +41,14 @@ func Module(rt *rapid.T, cfg Cfg) (*am.Module, map[string]int) {
 			g.funcDef(f)
 		}
 	}
+	g.blockAddrGlobal()
 	g.metadata()
 	g.order()
+	for _, d := range g.M.U.Defs {
+		if typeMentions(d.Fields, map[string]bool{}, g.M.U, d.Name) {
+			g.feat("type/recursive")
+		}
+	}
 	return g.M, g.Features
 }
 
@@ -466,6 +472,12 @@ func (g *G) metadata() {
 				if !node.Distinct && g.reaches(g.M.MDs[j], node, map[*am.MDNode]bool{}) {
 					continue // uniqued nodes cannot be part of a cycle
 				}
+				if j == i || g.reaches(g.M.MDs[j], node, map[*am.MDNode]bool{}) {
+					g.feat("md/cycle")
+				}
+				if j > i {
+					g.feat("md/forward-ref")
+				}
 				node.Fields = append(node.Fields, &am.MDField{K: am.MDRef, Node: g.M.MDs[j]})
 			default:
 				inl := &am.MDNode{ID: -1}
@@ -607,4 +619,56 @@ func SparseMetadataIDs(rt *rapid.T, m *am.Module) {
 		n.ID = id
 		id++
 	}
+}
+
+// typeMentions reports whether the field types mention the identified struct target (through any nesting).
+func typeMentions(ts []*am.Type, seen map[string]bool, u *am.Universe, target string) bool {
+	for _, t := range ts {
+		if t == nil {
+			continue
+		}
+		if t.K == am.Named {
+			if t.Name == target {
+				return true
+			}
+			if !seen[t.Name] {
+				seen[t.Name] = true
+				if d := u.Def(t.Name); d != nil && typeMentions(d.Fields, seen, u, target) {
+					return true
+				}
+			}
+			continue
+		}
+		sub := append(append([]*am.Type{t.Elem, t.Ret}, t.Fields...), t.Params...)
+		if typeMentions(sub, seen, u, target) {
+			return true
+		}
+	}
+	return false
+}
+
+// blockAddrGlobal adds a global whose initialiser takes the address of blocks of defined functions
+// (blockaddress in a global initialiser, of blocks of several functions).
+func (g *G) blockAddrGlobal() {
+	if !g.chance("blockaddrglobal", 1, 3) {
+		return
+	}
+	var elems []*am.Const
+	for _, f := range g.M.Funcs {
+		if f.AddrSpace != 0 || f.Name == "" {
+			continue // llvm-as cannot resolve blockaddress of unnamed functions / numbered blocks from outside the function
+		}
+		for bi, b := range f.Blocks {
+			if bi > 0 && b.Name != "" && g.chance("takeaddr", 1, 2) && len(elems) < 4 {
+				elems = append(elems, &am.Const{K: am.CBlockAddr, T: am.P(am.I8), Ref: f, Block: b})
+			}
+		}
+	}
+	if len(elems) == 0 {
+		return
+	}
+	t := am.A(uint64(len(elems)), am.P(am.I8))
+	gl := &am.Global{Name: g.fresh("blockaddrs"), T: t, Linkage: "internal", Constant: true, Init: &am.Const{K: am.CArray, T: t, Elems: elems}}
+	g.M.Globals = append(g.M.Globals, gl)
+	g.feat("const/blockaddress-in-global")
 }
